@@ -226,22 +226,29 @@ func TestVerifC10Load(t *testing.T) {
 		}
 		// a root project that moved to dawn.toml and left its old .dawnconfig behind: the requirements it had then
 		// (all but one of today's; none at all; or bytes that are no configuration).  dawn.toml is the configuration.
+		rootFile := cfgName
+		var leftOver any // nil: none; else what the left-over .dawnconfig holds
 		if cfgName == "dawn.toml" && rng.Intn(2) == 0 {
 			cfgName = "dawn.toml next to a left-over .dawnconfig"
 			old := map[string]project.RequirementConfig{}
+			oldList := [][3]string{}
 			for i, r := range c.Root {
 				if i > 0 {
 					old[r[0]] = project.RequirementConfig{Path: r[1], Version: r[2]}
+					oldList = append(oldList, r)
 				}
 			}
 			var err error
 			switch rng.Intn(3) {
 			case 0:
 				err = project.WriteConfigFile(filepath.Join(rootDir, ".dawnconfig"), &project.Config{Name: "root", Requirements: old})
+				leftOver = map[string]any{"holds": "all but one of the requirements", "root": oldList}
 			case 1:
 				err = project.WriteConfigFile(filepath.Join(rootDir, ".dawnconfig"), &project.Config{Name: "old"})
+				leftOver = map[string]any{"holds": "no requirements", "root": [][3]string{}}
 			default:
 				err = os.WriteFile(filepath.Join(rootDir, ".dawnconfig"), []byte("\x00\x01 = = [not toml\n"), 0o600)
+				leftOver = map[string]any{"holds": "not a configuration"}
 			}
 			if err != nil {
 				t.Fatal(err)
@@ -253,7 +260,7 @@ func TestVerifC10Load(t *testing.T) {
 
 		oracle := func(name string, fl *c10lFault, got c10lResult, msg string) {
 			rec := map[string]any{"t": "ORACLE", "name": name, "case": c.Case, "u": c.U, "root": c.Root, "root_config_file": cfgName,
-				"got": got, "want": c10lResult{St: "ok", M: c.Want}, "error_text": msg}
+				"left_over_dawnconfig": leftOver, "got": got, "want": c10lResult{St: "ok", M: c.Want}, "error_text": msg}
 			if fl != nil {
 				rec["fault"] = fl
 			}
@@ -346,7 +353,9 @@ func TestVerifC10Load(t *testing.T) {
 				if err := fl.undo(); err != nil {
 					t.Fatal(err)
 				}
-				emit(map[string]any{"t": "LS", "case": c.Case, "u": c.U, "entry": filepath.ToSlash(e), "kind": fl.Kind, "res": got})
+				// not_exist: the failure of the damaged entry is a "does not exist" (project_config.go loadConfig asks)
+				emit(map[string]any{"t": "LS", "case": c.Case, "u": c.U, "entry": filepath.ToSlash(e), "kind": fl.Kind, "res": got,
+					"not_exist": fl.Kind == "configuration file gone"})
 				switch {
 				case got.St == "err":
 					outcomes["fails"]++
@@ -354,7 +363,12 @@ func TestVerifC10Load(t *testing.T) {
 					outcomes["answers with the reference"]++
 				default:
 					outcomes["WRONG"]++
-					oracle("load:unwalkable-graph-answered-with-a-list-that-is-not-the-solution", fl, got, msg)
+					if leftOver != nil && fl.Kind == "configuration file gone" {
+						// its own name: the root's loadConfig takes the missing file BELOW the cache for a missing dawn.toml
+						oracle("load:failure-below-dawn.toml-answered-from-the-left-over-dawnconfig", fl, got, msg)
+					} else {
+						oracle("load:unwalkable-graph-answered-with-a-list-that-is-not-the-solution", fl, got, msg)
+					}
 				}
 			}
 		}
@@ -365,7 +379,7 @@ func TestVerifC10Load(t *testing.T) {
 			oracle("load:restored-cache-vs-reference", nil, again, againMsg)
 		}
 		emit(map[string]any{"t": "LC", "case": c.Case, "u": c.U, "intact": intact, "entries": len(entries), "outcomes": outcomes,
-			"root_config_file": cfgName})
+			"root_config_file": cfgName, "root_file": rootFile, "left_over": leftOver})
 		os.RemoveAll(home)
 		os.RemoveAll(rootDir)
 	}
